@@ -25,15 +25,16 @@ VARIABLES l,          \* next event
           ctx, paused, st, scanning, envw, pendingIrq, exited,
           startedT, registeredT,   \* spawned threads that run / that are on the thread list
           asked,      \* asked[t]: threads with an outstanding stop request on t
+          snap,       \* snap[th]: the threads that were on the list when th began its current round of stop requests
           bad         \* ghost verdicts: set of <<tag, event index>>
-vars == <<l, ctx, paused, st, scanning, envw, pendingIrq, exited, startedT, registeredT, asked, bad>>
+vars == <<l, ctx, paused, st, scanning, envw, pendingIrq, exited, startedT, registeredT, asked, snap, bad>>
 
 Init == /\ l = 1
         /\ ctx = [t \in Thread |-> FALSE] /\ paused = [t \in Thread |-> FALSE]
         /\ st = [t \in Thread |-> "Running"]
         /\ scanning = [t \in Thread |-> None] /\ envw = [t \in Thread |-> None]
         /\ pendingIrq = [t \in Thread |-> FALSE] /\ exited = {} /\ bad = {}
-        /\ startedT = {} /\ registeredT = {} /\ asked = [t \in Thread |-> {}]
+        /\ startedT = {} /\ registeredT = {} /\ asked = [t \in Thread |-> {}] /\ snap = [t \in Thread |-> {}]
 
 E == Events[l]
 Is(names) == l <= N /\ E.ev \in names
@@ -47,78 +48,86 @@ Flag(tag) == bad' = bad \cup {<<tag, l>>}
 \* The thread's own flag `paused` may have been cleared meanwhile by a resume of ANOTHER stop-the-world
 \* operation; that is the business of C16, not a breach here while the thread is parked.)
 NotAsked == E.th # E.tgt /\ E.th \notin asked[E.tgt]
+\* ... a thread that was on the list when the stopper made its requests and was skipped is one thing; a
+\* thread that was put on the list DURING the stop (spawn-native-thread races with it: the second pass over
+\* the list finds it, running and never asked) is the known late-registration family
+EngineThread == "T0"
+NotAskedTag == IF E.tgt \in snap[E.th] THEN "C15-access-to-thread-never-asked-to-stop"
+                                       ELSE "C15-access-to-thread-registered-during-stop"
 
 Publish == /\ Is({"SP_PUBLISH", "POLL_PUBLISH"}) /\ Adv
            /\ ctx' = [ctx EXCEPT ![E.th] = TRUE]
-           /\ UNCHANGED <<paused, st, scanning, envw, pendingIrq, exited, bad, startedT, registeredT, asked>>
+           /\ UNCHANGED <<paused, st, scanning, envw, pendingIrq, exited, bad, startedT, registeredT, asked, snap>>
 \* retracting while another thread reads or writes this thread's state is the C15 breach
 Retract == /\ Is({"SP_RETRACT", "POLL_RETRACT"}) /\ Adv
            /\ ctx' = [ctx EXCEPT ![E.th] = FALSE]
            /\ IF scanning[E.th] # None \/ envw[E.th] # None THEN Flag("C15a-retract-while-scanned") ELSE UNCHANGED bad
-           /\ UNCHANGED <<paused, st, scanning, envw, pendingIrq, exited, startedT, registeredT, asked>>
+           /\ UNCHANGED <<paused, st, scanning, envw, pendingIrq, exited, startedT, registeredT, asked, snap>>
 Dispatch == /\ Is({"DISPATCH"}) /\ Adv
             /\ IF scanning[E.th] # None \/ envw[E.th] # None THEN Flag("C15a-runs-while-scanned") ELSE UNCHANGED bad
-            /\ UNCHANGED <<ctx, paused, st, scanning, envw, pendingIrq, exited, startedT, registeredT, asked>>
+            /\ UNCHANGED <<ctx, paused, st, scanning, envw, pendingIrq, exited, startedT, registeredT, asked, snap>>
 ScanBegin == /\ Is({"SCAN_BEGIN"}) /\ Adv
              /\ scanning' = [scanning EXCEPT ![E.tgt] = E.th]
              /\ bad' = bad \cup (IF ~ctx[E.tgt] THEN {<<"C15a-scan-of-unpublished-thread", l>>} ELSE {})
-                            \cup (IF NotAsked THEN {<<"C15-access-to-thread-never-asked-to-stop", l>>} ELSE {})
-             /\ UNCHANGED <<ctx, paused, st, envw, pendingIrq, exited, startedT, registeredT, asked>>
+                            \cup (IF NotAsked THEN {<<NotAskedTag, l>>} ELSE {})
+             /\ UNCHANGED <<ctx, paused, st, envw, pendingIrq, exited, startedT, registeredT, asked, snap>>
 ScanEnd == /\ Is({"SCAN_END"}) /\ Adv
            /\ scanning' = [scanning EXCEPT ![E.tgt] = None]
-           /\ UNCHANGED <<ctx, paused, st, envw, pendingIrq, exited, bad, startedT, registeredT, asked>>
+           /\ UNCHANGED <<ctx, paused, st, envw, pendingIrq, exited, bad, startedT, registeredT, asked, snap>>
 EnvBegin == /\ Is({"ENV_WRITE_BEGIN"}) /\ Adv
             /\ envw' = [envw EXCEPT ![E.tgt] = E.th]
             /\ bad' = bad \cup (IF ~ctx[E.tgt] THEN {<<"C15a-write-to-unpublished-thread", l>>} ELSE {})
-                           \cup (IF NotAsked THEN {<<"C15-access-to-thread-never-asked-to-stop", l>>} ELSE {})
-            /\ UNCHANGED <<ctx, paused, st, scanning, pendingIrq, exited, startedT, registeredT, asked>>
+                           \cup (IF NotAsked THEN {<<NotAskedTag, l>>} ELSE {})
+            /\ UNCHANGED <<ctx, paused, st, scanning, pendingIrq, exited, startedT, registeredT, asked, snap>>
 EnvEnd == /\ Is({"ENV_WRITE_END"}) /\ Adv
           /\ envw' = [envw EXCEPT ![E.tgt] = None]
-          /\ UNCHANGED <<ctx, paused, st, scanning, pendingIrq, exited, bad, startedT, registeredT, asked>>
+          /\ UNCHANGED <<ctx, paused, st, scanning, pendingIrq, exited, bad, startedT, registeredT, asked, snap>>
 \* ThreadStateController: pause_for_safepoint / resume / interrupt / suspend
 Pause == /\ Is({"CTRL_PAUSE"}) /\ Adv
          /\ paused' = [paused EXCEPT ![E.tgt] = TRUE] /\ st' = [st EXCEPT ![E.tgt] = "PausedAtSafepoint"]
          /\ IF pendingIrq[E.tgt] THEN Flag("C17-interrupt-overwritten") ELSE UNCHANGED bad
          /\ pendingIrq' = [pendingIrq EXCEPT ![E.tgt] = FALSE]
          /\ asked' = [asked EXCEPT ![E.tgt] = @ \cup {E.th}]
+         /\ snap' = IF \A u \in Thread : E.th \notin asked[u]          \* first request of a new round
+                     THEN [snap EXCEPT ![E.th] = registeredT \cup {EngineThread}] ELSE snap
          /\ UNCHANGED <<ctx, scanning, envw, exited, startedT, registeredT>>
 Resume == /\ Is({"CTRL_RESUME"}) /\ Adv
           /\ paused' = [paused EXCEPT ![E.tgt] = FALSE] /\ st' = [st EXCEPT ![E.tgt] = "Running"]
           /\ IF pendingIrq[E.tgt] THEN Flag("C17-interrupt-overwritten") ELSE UNCHANGED bad
           /\ pendingIrq' = [pendingIrq EXCEPT ![E.tgt] = FALSE]
           /\ asked' = [asked EXCEPT ![E.tgt] = @ \ {E.th}]
-          /\ UNCHANGED <<ctx, scanning, envw, exited, startedT, registeredT>>
+          /\ UNCHANGED <<ctx, scanning, envw, exited, startedT, registeredT, snap>>
 Interrupt == /\ Is({"CTRL_INTERRUPT"}) /\ Adv
              /\ paused' = [paused EXCEPT ![E.tgt] = TRUE] /\ st' = [st EXCEPT ![E.tgt] = "Interrupted"]
              /\ pendingIrq' = [pendingIrq EXCEPT ![E.tgt] = TRUE]
-             /\ UNCHANGED <<ctx, scanning, envw, exited, bad, startedT, registeredT, asked>>
+             /\ UNCHANGED <<ctx, scanning, envw, exited, bad, startedT, registeredT, asked, snap>>
 Suspend == /\ Is({"CTRL_SUSPEND"}) /\ Adv
            /\ paused' = [paused EXCEPT ![E.tgt] = TRUE] /\ st' = [st EXCEPT ![E.tgt] = "Suspended"]
-           /\ UNCHANGED <<ctx, scanning, envw, pendingIrq, exited, bad, startedT, registeredT, asked>>
+           /\ UNCHANGED <<ctx, scanning, envw, pendingIrq, exited, bad, startedT, registeredT, asked, snap>>
 Raised == /\ Is({"RAISED"}) /\ Adv
           /\ pendingIrq' = [pendingIrq EXCEPT ![E.th] = FALSE]
-          /\ UNCHANGED <<ctx, paused, st, scanning, envw, exited, bad, startedT, registeredT, asked>>
+          /\ UNCHANGED <<ctx, paused, st, scanning, envw, exited, bad, startedT, registeredT, asked, snap>>
 Exit == /\ Is({"THREAD_EXIT"}) /\ Adv
         /\ exited' = exited \cup {E.th} /\ ctx' = [ctx EXCEPT ![E.th] = FALSE]
-        /\ UNCHANGED <<paused, st, scanning, envw, pendingIrq, bad, startedT, registeredT, asked>>
+        /\ UNCHANGED <<paused, st, scanning, envw, pendingIrq, bad, startedT, registeredT, asked, snap>>
 \* spawn-native-thread: the new thread starts running (THREAD_START, logged by itself) and is pushed
 \* on the thread list by its parent (REGISTERED) - in the code in that order
 Started == /\ Is({"THREAD_START"}) /\ Adv
            /\ startedT' = startedT \cup {E.th}
-           /\ UNCHANGED <<ctx, paused, st, scanning, envw, pendingIrq, exited, registeredT, asked, bad>>
+           /\ UNCHANGED <<ctx, paused, st, scanning, envw, pendingIrq, exited, registeredT, asked, snap, bad>>
 Registered == /\ Is({"REGISTERED"}) /\ Adv
               /\ registeredT' = registeredT \cup {E.tgt}
-              /\ UNCHANGED <<ctx, paused, st, scanning, envw, pendingIrq, exited, startedT, asked, bad>>
+              /\ UNCHANGED <<ctx, paused, st, scanning, envw, pendingIrq, exited, startedT, asked, snap, bad>>
 \* end of a stop-the-world operation: every running spawned thread must have been on the list
 \* (otherwise it was neither stopped nor scanned nor given the new global table)
 StwEnd == /\ Is({"STW_END"}) /\ Adv
           /\ IF \E t \in startedT : t \notin registeredT /\ t \notin exited /\ t # E.th
                THEN Flag("C15-unregistered-thread-runs-during-stop") ELSE UNCHANGED bad
-          /\ UNCHANGED <<ctx, paused, st, scanning, envw, pendingIrq, exited, startedT, registeredT, asked>>
+          /\ UNCHANGED <<ctx, paused, st, scanning, envw, pendingIrq, exited, startedT, registeredT, asked, snap>>
 \* events that carry no state of the projection (parks, loop reads, brackets)
 Other == /\ Is({"SP_PARK", "POLL_PARK", "SP_READ_PAUSED", "POLL_LOOP_READ", "STW_BEGIN",
                "SPAWNED", "REGISTERING", "UNPARK", "HEAP_LOCKED"}) /\ Adv
-         /\ UNCHANGED <<ctx, paused, st, scanning, envw, pendingIrq, exited, bad, startedT, registeredT, asked>>
+         /\ UNCHANGED <<ctx, paused, st, scanning, envw, pendingIrq, exited, bad, startedT, registeredT, asked, snap>>
 
 Next == Publish \/ Retract \/ Dispatch \/ ScanBegin \/ ScanEnd \/ EnvBegin \/ EnvEnd \/ Pause \/ Resume
         \/ Interrupt \/ Suspend \/ Raised \/ Exit \/ Started \/ Registered \/ StwEnd \/ Other
@@ -128,7 +137,8 @@ Spec == Init /\ [][Next]_vars
 C15 == \A x \in bad : x[1] \notin {"C15a-retract-while-scanned", "C15a-runs-while-scanned",
                                    "C15a-scan-of-unpublished-thread", "C15a-write-to-unpublished-thread",
                                    "C15-unregistered-thread-runs-during-stop",
-                                   "C15-access-to-thread-never-asked-to-stop"}
+                                   "C15-access-to-thread-never-asked-to-stop",
+                                   "C15-access-to-thread-registered-during-stop"}
 C17 == /\ \A x \in bad : x[1] # "C17-interrupt-overwritten"
        /\ \A t \in Thread : pendingIrq[t] => (paused[t] /\ st[t] = "Interrupted")
 \* the whole trace must be consumed (an event the specification cannot take = spec drift)
